@@ -1,16 +1,21 @@
-"""Stand-in for asgiref.sync (Flask needs it for the one `async def` view)."""
-import asyncio
+"""Stand-in for asgiref.sync (Flask needs it for the one `async def` view).
+
+The coroutine is driven synchronously.  dash-live's only async view awaits something only when it is asked
+to fetch a remote URL through a thread pool; that path needs real network I/O and is reported as
+unsupported by the simulator instead of being run on a real thread."""
 import functools
 
 
 def async_to_sync(func):
     @functools.wraps(func)
     def wrapper(*args, **kwargs):
-        loop = asyncio.new_event_loop()
+        coro = func(*args, **kwargs)
         try:
-            return loop.run_until_complete(func(*args, **kwargs))
-        finally:
-            loop.close()
+            coro.send(None)
+        except StopIteration as stop:
+            return stop.value
+        coro.close()
+        raise RuntimeError("dsim asgiref shim: the async view suspended (real I/O is not simulated)")
     return wrapper
 
 
